@@ -46,11 +46,11 @@ def run_prop(prop, tier):
     kinds = None
     if prop == 'C16':
         kinds = {'no_format', 'zone', 'axis'}
-    n_q, n_t = (150, 1500) if prop in ('C05',) else (120, 1200)
+    n_q, n_t = (400, 3000) if prop in ('C05',) else (300, 2500)
     specs = list(wf.generate(prop, tier, n_q, n_t, kinds=kinds))
     if prop in ('C03', 'C08'):
         # structured array that is exactly the frame (no-copy path), with and without casts
-        specs += [(10000 + i, s) for i, s in wf.generate(prop, tier, 60, 600, stream='fastpath', kinds=set(), fastpath=True)]
+        specs += [(10000 + i, s) for i, s in wf.generate(prop, tier, 150, 1200, stream='fastpath', kinds=set(), fastpath=True)]
     runs = wf.execute(specs, model, bres, chk, want_live_desc=(prop == 'C05'))
     for r in runs:
         chk.case('whole-file', nontrivial_key=r.index if r.res['status'] == 'ok' else None, sample=wf.sample_of(r))
@@ -96,7 +96,7 @@ def rewrite_stream(chk, model, bres, tier):
     tmp = tempfile.mkdtemp(prefix='verif_c08_')
     try:
         runs = []
-        for i in range(40 if tier == 'quick' else 400):
+        for i in range(100 if tier == 'quick' else 800):
             spec = filegen.gen_spec(R, n_lf=1, small=True, vrl=R.choice([8192, 128]), with_index=False)
             spec['write'].update({'data_kind': 'dict', 'input_chunk_size': None, 'output_chunk_size': 2**20})
             r1 = filegen.write(spec, tmp, fname='r1.dlis')
